@@ -122,7 +122,7 @@ func runC10(args []string) {
 	r := core.NewRun("C10", "exploration")
 	r.Rule = "ReadFile executed in child processes behind a metering reader. (A) every string of <=3 tokens over a 60-spelling alphabet incl. malformed spellings " +
 		"(thorough: +length 4 over a 25-spelling core); (B) every prefix, single-byte deletion, and insertion/replacement from a 24-byte hostile alphabet of each corpus schema " +
-		"(quick: insertion/replacement at seeded offsets); (C) every reader-failure offset of each corpus schema x {1-byte reads, full reads} x 3 non-EOF error kinds, the failure persistent or transient (reported once, then EOF / then the remaining data). " +
+		"(quick: insertion/replacement at seeded offsets); (C) every reader-failure offset of each corpus schema x {1-byte reads, full reads} x 3 non-EOF error kinds, the failure persistent or transient (reported once, then EOF / then the remaining data), reported by a call that returns no data or by the call that returns the last bytes (n > 0 with the error). " +
 		"Oracle: no panic/runaway/CPU budget; reader fault => error; success => reader drained to EOF and ReadFile(x+NL+D) errors or contains D. " +
 		"distinct_nontrivial = distinct inputs accepted by ReadFile (completeness clause exercised) + distinct (schema, offset, chunking, error) fault cells."
 	r.Assume = []string{"D = a fresh struct definition preceded by a newline; CPU budget 20 s per ReadFile call"}
@@ -313,6 +313,7 @@ func runC10(args []string) {
 		ci, k, chunk int
 		ek           string
 		after        string
+		withData     bool // the failing Read also returns the last bytes (n > 0, err != nil)
 	}
 	var cells []cell
 	var ftexts [][]byte
@@ -327,13 +328,20 @@ func runC10(args []string) {
 					if !r.Thorough() && ek != "generic" && (k%5 != 0) {
 						continue
 					}
-					cells = append(cells, cell{ci, k, chunk, ek, ""})
+					cells = append(cells, cell{ci, k, chunk, ek, "", false})
 					ftexts = append(ftexts, src)
 					if ek == "generic" {
 						// transient failures: the error is reported once, then end of input / the rest of the data
 						for _, after := range []string{"eof", "resume"} {
-							cells = append(cells, cell{ci, k, chunk, ek, after})
+							cells = append(cells, cell{ci, k, chunk, ek, after, false})
 							ftexts = append(ftexts, src)
+						}
+						// the failing call itself still delivers data (n > 0 with the error)
+						if k > 0 {
+							for _, after := range []string{"", "eof", "resume"} {
+								cells = append(cells, cell{ci, k, chunk, ek, after, true})
+								ftexts = append(ftexts, src)
+							}
 						}
 					}
 				}
@@ -347,14 +355,17 @@ func runC10(args []string) {
 	core.Pool(nproc(), func(int) *core.Child { return feChild(bin) }, len(cells), func(i int) any {
 		c := cells[i]
 		return map[string]any{"op": "rf", "from": 0, "texts": []string{fmt.Sprintf("%x", ftexts[i])},
-			"reader": map[string]any{"chunk": c.chunk, "fail_at": c.k, "err": c.ek, "after": c.after}}
+			"reader": map[string]any{"chunk": c.chunk, "fail_at": c.k, "err": c.ek, "after": c.after, "err_with_data": c.withData}}
 	}, func(i int, ch *core.Child, res core.Result) {
 		c := cells[i]
 		loc := map[string]string{"schema": names[c.ci], "chunk": fmt.Sprint(c.chunk), "err": c.ek}
 		if c.after != "" {
 			loc["after_failure"] = c.after
 		}
-		key := fmt.Sprintf("fault/%d/%d/%d/%s", c.ci, c.k, c.chunk, c.ek)
+		if c.withData {
+			loc["failing_read"] = "n>0 with the error"
+		}
+		key := fmt.Sprintf("fault/%d/%d/%d/%s/%s/%v", c.ci, c.k, c.chunk, c.ek, c.after, c.withData)
 		if res.Outcome != "post" || len(res.Res) == 0 {
 			if res.Outcome == "wall-watchdog" {
 				r.Inconclusive("wall watchdog")
